@@ -209,8 +209,9 @@ with tempfile.TemporaryDirectory() as d:
                         probs.append(f"membership of {jid[:6]} is {(p.open_job(id=jid) in cur)}, id set says {jid in base}")
                 if probs and len(failures) < 2:
                     failures.append({"key": "cursor", "description": f"cursor for {f}: " + "; ".join(probs[:3]), "script": ""})
-                # ---- groupby on the cursor (top-level keys; dotted / nested keys are known finding F6)
-                for key, default in (("a", None), ("sp.b", None), ("doc.a", None), ("a", -1), (("a", "b"), None), (None, None)):
+                # ---- groupby on the cursor (top-level and nested keys in both namespaces)
+                for key, default in (("a", None), ("sp.b", None), ("doc.a", None), ("a", -1), (("a", "b"), None), (None, None),
+                                     ("a.n", None), ("sp.c.m", None), ("doc.a.n", -1), ("c.m", "none"), (("a.n", "doc.d"), None)):
                     try:
                         groups = [(lab, [j.id for j in grp]) for lab, grp in cur.groupby(key, default=default)] if key is not None else [(lab, [j.id for j in grp]) for lab, grp in cur.groupby()]
                     except TypeError:
@@ -225,7 +226,7 @@ with tempfile.TemporaryDirectory() as d:
 
                         def own(jid, k):
                             ns, kk = ("doc", k[4:]) if k.startswith("doc.") else ("sp", k[3:] if k.startswith("sp.") else k)
-                            return lookup(view[jid][ns], [kk])
+                            return lookup(view[jid][ns], kk.split("."))
                         keys = (key,) if isinstance(key, str) else (key or ())
                         if key is None:
                             sel = base
@@ -258,7 +259,7 @@ with tempfile.TemporaryDirectory() as d:
     evals += ncast
     for key, desc in cast_fail:
         failures.append({"key": key, "description": desc, "script": ""})
-    # probe known finding F6: groupby with a dotted (nested) key
+    # probe of the repaired defect F6: groupby with a dotted (nested) key
     with project_scratch() as p:
         p.open_job({"n": {"k": 1}}).init()
         p.open_job({"n": {"k": 2}}).init()
@@ -268,8 +269,8 @@ with tempfile.TemporaryDirectory() as d:
         except Exception:
             ok = False
         if not ok:
-            failures.append({"key": "groupby:dotted-key", "description": "known finding F6", "script": ""})
+            failures.append({"key": "groupby:dotted-key", "description": "groupby('n.k') over nested state points does not give the labels [1, 2] (repaired defect F6)", "script": ""})
     return {"scope": "scalar token casting value by value (ints up to 30 digits incl. 2**53+1, floats, true/false/null, words) through parse_filter_arg and the one-string form; corpora as in C06 on real projects; every generated filter under 3 random equivalent spellings (sp. prefix, operator suffix vs nested, dotted vs nested) and, where expressible, "
-                     "as command-line tokens; cursor len/iter/index/slice/membership; groupby by top-level sp / doc keys, tuples, None, with and without default (dotted keys: known finding F6)",
+                     "as command-line tokens; cursor len/iter/index/slice/membership; groupby by top-level and nested sp / doc keys, tuples, None, with and without default",
             "evaluations": evals, "distinct_nontrivial": len(distinct), "rule": "a case is one (corpus, spelling) query or one cursor/groupby observation; distinct by spelled filter",
             "samples": samples, "failures": failures}
